@@ -144,6 +144,10 @@ pub fn collect_sources<FS: FileSystem>(
     while let Some(file_id) = files.pop_front() {
         #[cfg(feature = "verif")]
         syntax::verif::step();
+        // a file can be reached along several paths (or include itself)
+        if file_set.contains(&file_id) {
+            continue;
+        }
         let parse = db.parse(file_id);
 
         let file_path = fs.path_for_file(&file_id);
